@@ -101,6 +101,7 @@ func (e *Exec) resetOpaque() {
 	e.opaque["pathno"] = 0
 	delete(e.opaque, "tracing")
 	delete(e.opaque, "modeldigests")
+	delete(e.opaque, "hmacmemo")
 	delete(e.opaque, "pooladv")
 	delete(e.opaque, "randfail")
 	delete(e.opaque, "deferOwner")
